@@ -2,6 +2,7 @@
 """Prints the prompt given to a seeding sub-agent for one property (only the property text + its scratch worktree)."""
 import json, sys
 pid = sys.argv[1]
+VA, VB = (sys.argv[2], sys.argv[3]) if len(sys.argv) > 3 else ('a', 'b')
 props = {json.loads(l)['id']: json.loads(l) for l in open('/verif/properties.jsonl')}
 p = props[pid]
 print(f"""You are helping to stress-test a verification effort for the pure-Python library cm-colors (WCAG colour-contrast library with a CSS-rewriting CLI).
@@ -24,9 +25,9 @@ TASK: produce TWO independent, clearly different source changes to the library (
  (e) needs something specific to manifest - an unusual input, a particular threshold neighbourhood, a multi-step sequence of operations, or two cooperating sites that each look fine alone. NOT something ordinary use would expose at once.
 The two changes should be in different functions / break different clauses of the property where possible.
 
-For each change (call them a and b) deliver into /tmp/seed/{pid}-out/a/ and /tmp/seed/{pid}-out/b/ :
+For each change (call them {VA} and {VB}) deliver into /tmp/seed/{pid}-out/{VA}/ and /tmp/seed/{pid}-out/{VB}/ :
   patch.diff  - `git diff` against HEAD from the worktree root (must apply with `git apply` at the repository root)
   demo.py     - a small plain-Python program: exit status 0 and prints OK when the property holds, exit status 1 and prints the failing input/observation when it is violated. It must import cm_colors from sys.path (do not hard-code your worktree path; it will be run as `PYTHONPATH=<root>/src /venv/bin/python demo.py`). It must FAIL with your change applied and PASS on the untouched code - check both yourself. Keep its run time under 60 s. Be careful that the demo judges the property with an oracle of its own (e.g. its own WCAG formula) wherever the changed code would otherwise judge itself.
   notes.md    - 3-6 lines: which clause it breaks, what is needed for it to manifest, why the tests do not notice.
-Work on one change at a time: apply, test, write the diff, then `git checkout -- .` before the next. Leave the worktree clean at the end.
+Work on one change at a time: apply, test, write the diff, then `git checkout -- .` before the next (never use `git stash`: the stash is shared with other worktrees). Leave the worktree clean at the end.
 Your final message: under 150 words - for each change one line saying what it is and that you verified (suite passes, demo fails with / passes without).""")
